@@ -244,10 +244,20 @@ def c07(ctx):
     n = 12 if ctx.quick else 80
     outs = run_conc(ctx, drv, n, ctx.seed + 2) + run_conc(ctx, drv, n // 2, ctx.seed + 10, profile="rmw") + \
         run_conc(ctx, drv, n // 2, ctx.seed + 11, profile="skew")
+    # fingerprint width: disjoint read/write sets of N keys each must not conflict (N*N >> 2^32)
+    def bday(i):
+        out = os.path.join(ctx.scratch, "bday-%d" % i)
+        rc, o = ctx.drv(drv, ["conc", "-birthday", 120000 if ctx.quick else 200000, "-seed", ctx.seed * 10 + i, "-out", out],
+                        timeout=600)
+        sp = os.path.join(out, "summary.json")
+        return out, (json.load(open(sp)) if rc == 0 and os.path.exists(sp) else None), o, rc
+    outs += ctx.par(bday, range(2 if ctx.quick else 6), workers=2)
     stats = judge_conc(ctx, outs, "c07", exact=True, filt=lambda rj: rj["event"].get("ev") == "CommitResp")
-    std_cov(ctx, stats, "concurrent scenarios judged with the exact conflict rule (iff); rejections at a Commit "
-                        "response are attributed to C07 (over- and under-abort alike)")
-    ctx.assumptions += ["64-bit fingerprint collisions among <= 20 keys are ignored (p < 1e-17)"]
+    std_cov(ctx, stats, "concurrent scenarios (incl. write-then-read of the same key, reads of absent keys, deletes) "
+                        "judged with the exact conflict rule (iff); rejections at a Commit response are attributed "
+                        "to C07 (over- and under-abort alike); plus the fingerprint birthday scenario: disjoint "
+                        "read and write sets of >= 120000 keys each must not conflict")
+    ctx.assumptions += ["collisions of the 64-bit key fingerprints are ignored (p < 1e-8 even in the birthday scenario)"]
 
 
 @check("C08")
@@ -279,6 +289,175 @@ def c12(ctx):
     std_cov(ctx, stats, "concurrent scenarios executed by a harness built with -race (thresholds down to 1 byte, queue "
                         "length 0..4); a race report, a panic or a history rejected by AbsTxn is a violation")
     ctx.assumptions += ["the Go race detector decides the memory-model clause for the schedules executed, not for all"]
+
+
+# --------------------------------------------------------------------------- C03 / C04 / C14
+def run_crash(ctx, drv, n, ops, seed, torn="", depth=1, shards=8, par=2):
+    def one(sh):
+        out = os.path.join(ctx.scratch, "crash-%s-%d" % (torn or "p", sh))
+        args = ["crash", "-seed", seed, "-n", n, "-ops", ops, "-out", out, "-shard", sh, "-shards", shards,
+                "-par", par, "-depth", depth]
+        if torn:
+            args += ["-torn", torn]
+        rc, o = ctx.drv(drv, args, timeout=3400)
+        summ = None
+        sp = os.path.join(out, "summary.json")
+        if rc == 0 and os.path.exists(sp):
+            summ = json.load(open(sp))
+        return out, summ, o, rc
+    return ctx.par(one, range(shards), workers=shards)
+
+
+def judge_crash(ctx, outs, what, mode):
+    """mode: "c03" (per-key in-flight, untorn images), "c04" (whole-or-nothing), "c14" (torn variants)."""
+    stats = dict(traces=0, events=0, accepted=0, nontrivial=0, images=0, inflight=0, torn=0, level2=0, open_failed=0,
+                 by_op={})
+    jobs = []
+    for out, summ, o, rc in outs:
+        for kind, text in common.hard_failures(o):
+            p = ctx.save_replay("%s-%s-%s.txt" % (what, kind, os.path.basename(out)), [text])
+            ctx.violation(p, "%s in the engine while running the crash workload:\n%s" % (kind, text[:1500]),
+                          match={"kind": kind})
+        if summ is None:
+            if not common.hard_failures(o):
+                raise Machinery("harness run failed rc=%s\n%s" % (rc, o[-2000:]))
+            continue
+        stats["images"] += summ["images"]
+        jobs.append((out, summ))
+
+    def sel(oc):
+        torn = oc["variant"].startswith("torn")
+        return torn if mode == "c14" else not torn
+
+    def one(job):
+        out, summ = job
+        # keep only the traces this property judges
+        keep = [i for i, oc in enumerate(summ["outcomes"]) if sel(oc)]
+        lines = open(os.path.join(out, "traces.ndjson")).read().splitlines()
+        offs = summ["offsets"]
+        sub, suboffs, n = [], [], 1
+        for i in keep:
+            end = offs[i + 1] - 1 if i + 1 < len(offs) else len(lines)
+            suboffs.append(n)
+            sub += lines[offs[i] - 1:end]
+            n = len(sub) + 1
+        sp = os.path.join(out, "sub-%s.ndjson" % mode)
+        open(sp, "w").write("\n".join(sub) + "\n")
+        ssum = dict(offsets=suboffs, workers=summ["workers"], keys=summ["keys"])
+        if not keep:
+            return keep, sp, ssum, 0, [], []
+        acc, rej = ctx.validate_batch(sp, ssum, atomic=(mode == "c04"), exact=True)
+        rej2 = []
+        if mode == "c04" and rej:
+            # attribute to C04 only what the per-key reading (C03) accepts
+            for rj in rej:
+                tl = ctx.trace_lines(sp, ssum, rj["index"])
+                fd = os.path.join(out, "c04-%d.ndjson" % rj["index"])
+                open(fd, "w").write("\n".join(tl) + "\n")
+                a2, r2 = ctx.validate_batch(fd, dict(offsets=[1], workers=summ["workers"], keys=summ["keys"]),
+                                            atomic=False, exact=True)
+                if not r2:
+                    rej2.append(rj)
+            rej = rej2
+        return keep, sp, ssum, acc, rej, []
+
+    for (out, summ), (keep, sp, ssum, acc, rej, _) in zip(jobs, ctx.par(one, jobs, workers=8)):
+        stats["traces"] += len(keep)
+        stats["accepted"] += acc
+        scripts = {}
+        for l in open(os.path.join(out, "scripts.ndjson")):
+            sc = json.loads(l)
+            scripts[sc["id"]] = sc
+        for i in keep:
+            oc = summ["outcomes"][i]
+            stats["events"] += oc["events"]
+            stats["nontrivial"] += 1 if (oc["inflight"] or oc["op"] in ("rename", "remove", "create")) else 0
+            stats["inflight"] += 1 if oc["inflight"] else 0
+            stats["torn"] += 1 if oc["variant"].startswith("torn") else 0
+            stats["level2"] += 1 if oc["level"] > 1 else 0
+            stats["by_op"][oc["op"]] = stats["by_op"].get(oc["op"], 0) + 1
+            if oc["exit"] != 0 and mode != "c04":
+                stats["open_failed"] += 1
+                name = "%s-%s-img%d-l%d" % (what, oc["script"], oc["image"], oc["level"])
+                rp = ctx.save_replay(name + ".json", dict(outcome=oc, script=scripts.get(oc["script"]),
+                                                         image_dir=oc.get("keep")))
+                if oc.get("keep") and os.path.isdir(oc["keep"]):
+                    dst = os.path.join(common.REPLAYS, ctx.id, name + ".image")
+                    shutil.rmtree(dst, ignore_errors=True)
+                    shutil.copytree(oc["keep"], dst)
+                ctx.violation(rp, "Open/recovery failed (exit %d) on the crash image taken before %s of %s (%s) in script "
+                                  "%s:\n%s" % (oc["exit"], oc["op"], oc["file"], oc["variant"] or "process crash",
+                                               oc["script"], oc.get("stderr", "")[:1200]), match={"kind": "open-failed"})
+        for rj in rej:
+            i = keep[rj["index"]]
+            oc, meta = summ["outcomes"][i], summ["meta"][i]
+            tl = ctx.trace_lines(sp, ssum, rj["index"])
+            name = "%s-%s-img%d-l%d-%d" % (what, oc["script"], oc["image"], oc["level"], i)
+            tp = ctx.save_replay(name + ".trace.ndjson", tl)
+            ctx.save_replay(name + ".meta.json", dict(workers=summ["workers"], keys=summ["keys"], atomic=(mode == "c04"),
+                                                      exact=True, rejected_at=rj["rel"], event=rj["event"], outcome=oc,
+                                                      script=scripts.get(oc["script"])))
+            ctx.violation(tp, "after a crash before %s of %s (%s; image %d of script %s, crash level %d) the recovered "
+                              "store contradicts the contract at event %d: %s" % (
+                                  oc["op"], oc["file"], oc["variant"] or "process crash", oc["image"], oc["script"],
+                                  oc["level"], rj["rel"], json.dumps(rj["event"])), match={"kind": "trace"})
+        if keep and len(ctx.samples) < 3:
+            oc = summ["outcomes"][keep[0]]
+            ctx.sample(dict(crash_before="%s %s" % (oc["op"], oc["file"]), variant=oc["variant"], script=oc["script"],
+                            inflight_commit=oc["inflight"], events=oc["events"], child_exit=oc["exit"]))
+    return stats
+
+
+def crash_cov(ctx, stats, rule):
+    ctx.traces_impl += stats["accepted"]
+    ctx.cov.update(dict(evaluations=stats["traces"], distinct_nontrivial=stats["nontrivial"], rule=rule,
+                        events=stats["events"], crash_images=stats["images"], inflight_commit_images=stats["inflight"],
+                        torn_variants=stats["torn"], second_level_images=stats["level2"], recoveries_failed=stats["open_failed"],
+                        images_by_next_fs_op=stats["by_op"]))
+
+
+@check("C03")
+def c03(ctx):
+    drv = ctx.build()
+    models.run_family(ctx, "crash")
+    n, ops = (16, 12) if ctx.quick else (160, 16)
+    outs = run_crash(ctx, drv, n, ops, ctx.seed, depth=1 if ctx.quick else 2)
+    stats = judge_crash(ctx, outs, "c03", "c03")
+    crash_cov(ctx, stats, "steered multi-key workloads with tiny thresholds (flush, cascaded compaction, reopen, Close); "
+                          "a crash image is the directory copied while the engine is held before a file-system "
+                          "operation (create/write/sync/rename/remove of wal and table files, by committer, flusher, "
+                          "Close and recovery); every distinct image is recovered by a fresh child process (Open, read "
+                          "all, commit, close, reopen, read all) and the stitched history is judged against AbsTxn "
+                          "(in-flight commit: per key old or new); non-trivial = a commit was in flight or the next "
+                          "operation was a create/rename/remove")
+    ctx.assumptions += ["process-crash model: every completed file-system operation persists (the property's model)"]
+
+
+@check("C04")
+def c04(ctx):
+    drv = ctx.build()
+    models.run_family(ctx, "crash")
+    n, ops = (16, 12) if ctx.quick else (160, 16)
+    outs = run_crash(ctx, drv, n, ops, ctx.seed + 50)
+    stats = judge_crash(ctx, outs, "c04", "c04")
+    crash_cov(ctx, stats, "the C03 image enumeration on multi-key transactions (1-3 keys, rotation on every commit in "
+                          "part of the configurations); judged with AtomicInflight=TRUE; a history is attributed to C04 "
+                          "when the whole-or-nothing contract rejects it and the per-key contract accepts it")
+    ctx.assumptions += ["atomicity under lost unsynced tails is not claimed by C04 and not judged (see DESIGN.md)"]
+
+
+@check("C14")
+def c14(ctx):
+    drv = ctx.build()
+    models.run_family(ctx, "crash_torn")
+    n, ops = (12, 10) if ctx.quick else (96, 14)
+    outs = run_crash(ctx, drv, n, ops, ctx.seed + 90, torn="quick" if ctx.quick else "thorough")
+    stats = judge_crash(ctx, outs, "c14", "c14")
+    crash_cov(ctx, stats, "every crash image of the C03 enumeration, and for every file with bytes written after its last "
+                          "fsync (tracked from the fs hooks) the file cut back to {synced, synced+1, middle, written-1} "
+                          "(thorough: every byte boundary of short tails, 16 sampled cuts of long ones); Open must "
+                          "succeed and every acknowledged commit must be visible")
+    ctx.assumptions += ["directory operations are ordered and durable; no reordering inside a file beyond prefix truncation"]
 
 
 # --------------------------------------------------------------------------- replay
